@@ -120,23 +120,14 @@ theorem readSeqTags_itemA_exact (parent : Tag) (st : St) (ws : Bytes) (e : Elem)
   rw [bindOk _ _ _ _ _ (attrLoop_exact_seq parent.parent { t := .start, parent := parent.self, self := identify (e.n0 :: e.ns) e.name } e.c (e.v' ++ e.close ++ R) ((wsa, a1) :: la') _
     { st with a := true, rest := w :: Rw } (by simp) hlen rfl (by show w :: Rw = _; rw [← hRw]; simp [Elem.v])
     (fun p hp => ⟨(hoka p hp).1, (hoka p hp).2.2⟩) (fun p hp => (hoka p (List.mem_of_mem_tail hp)).2.1))]
-  have hpk : peek 512 { rest := e.c :: (e.v' ++ e.close ++ R), a := false, toks := pushAllSeq parent.parent ((wsa, a1) :: la') st.toks } =
-      (.ok (e.v ++ [60] ++ ((47 :: ((e.n0 :: e.ns) ++ 58 :: (e.name ++ [62])) ++ R).take (512 - e.v.length - 1))),
-        { rest := e.c :: (e.v' ++ e.close ++ R), a := false, toks := pushAllSeq parent.parent ((wsa, a1) :: la') st.toks }) := by
-    rw [peek_take 512 _ (by unfold W; omega) (by simp [Elem.close]; omega)]
-    congr 2
-    show (e.c :: (e.v' ++ e.close ++ R)).take 512 = _
-    have hvw := ok.hvwin
-    have e1 : (e.c :: (e.v' ++ e.close ++ R) : Bytes) = (e.v ++ [60]) ++ (47 :: ((e.n0 :: e.ns) ++ 58 :: (e.name ++ [62])) ++ R) := by simp [Elem.close, Elem.v]
-    rw [e1, List.take_append, List.take_of_length_le (by simp; omega)]
-    have hn : 512 - (e.v ++ [60] : Bytes).length = 512 - e.v.length - 1 := by simp; omega
-    rw [hn]
-  rw [bindOk _ _ _ _ _ (elem_value_exact 7 512 _ e.v _ e.c e.v' rfl ok.hv ok.hc hpk)]
-  dsimp only
-  have hd : (e.c :: (e.v' ++ e.close ++ R) : Bytes).drop e.v.length = e.close ++ R := by
-    have : (e.c :: (e.v' ++ e.close ++ R) : Bytes) = e.v ++ (e.close ++ R) := by simp [Elem.v]
-    rw [this, List.drop_left]
-  rw [hd]
+  have hrv : ({ rest := e.c :: (e.v' ++ e.close ++ R), a := false, toks := pushAllSeq parent.parent ((wsa, a1) :: la') st.toks } : St).rest =
+      (e.c :: e.v') ++ 60 :: ((47 :: ((e.n0 :: e.ns) ++ 58 :: (e.name ++ [62]))) ++ R) := by
+    simp [Elem.close]
+  rw [bindOk _ _ _ _ _ (readTagValue_any _ e.c e.v' _ ok.hv ok.hc ok.hvwin hrv (by simp [Elem.close]; omega))]
+  have hcl : (60 :: ((47 :: ((e.n0 :: e.ns) ++ 58 :: (e.name ++ [62]))) ++ R) : Bytes) = e.close ++ R := rfl
+  rw [hcl]
+  show (emit { pt := 2, parent := parent.self, self := parent.parent, val := e.v } >>= fun _ => readSeqTags parent (f + 1))
+    { rest := e.close ++ R, a := false, toks := pushAllSeq parent.parent ((wsa, a1) :: la') st.toks } = _
   have hemit : ∀ (tk : List Tok), emit { pt := 2, parent := parent.self, self := parent.parent, val := e.v }
       { rest := e.close ++ R, a := false, toks := tk } =
       (.ok (), { rest := e.close ++ R, a := false, toks := { pt := 2, parent := parent.self, self := parent.parent, val := e.v } :: tk }) := by
